@@ -50,4 +50,16 @@ var props = map[string]*propCfg{
 			"one queue per servent, as in the core (schedulerstate.go)",
 		}, commonAssumptions...),
 	},
+	"C11": {
+		Harness: "htree", Level: "exploration",
+		QuickRuns: 4000, QuickBudgetS: 90, ThoroughRuns: 400000, ThoroughBudgetS: 1200,
+		WatchdogSlackS: 120, DetSeedsQuick: 20, DetSeedsThorough: 200,
+		Rule: "one run = a generated role tree (depth <= 4, fan-out 1-4, aggregator/include/task/call, critical flags) attached to a real ParentAdapter, 1-3 rounds of generated state/status updates applied by 1-4 concurrent updaters (each leaf owned by one updater) under a seeded schedule; after each round every node is compared with a reference fold written from the statement; non-trivial = more than one update; distinct = distinct (scenario, interleaving)",
+		Real:    []string{"core/workflow: aggregatorRole, includeRole, taskRole, callRole update paths, SafeState/SafeStatus merge and aggregate, ParentAdapter fan-out", "core/task/sm State.X, core/task Status.X"},
+		Stub:    []string{"event writer (DummyWriter, Kafka disabled)", "roles are constructed programmatically (hook constructors) instead of being loaded from a template"},
+		Assumptions: append([]string{
+			"every leaf receives a status during the first round (as deployment does); the statement does not define the fold over never-reported (UNDEFINED) statuses",
+			"each leaf is updated by one goroutine at a time (updates to different tasks are concurrent)",
+		}, commonAssumptions...),
+	},
 }
